@@ -1,5 +1,7 @@
 package otp
 
+import "time"
+
 // Symbolic runtime of the verification harnesses: every function below is an
 // intrinsic of the gosym executor (declared without body on purpose).  The
 // native twin with real bodies is rt_native.go (used for replay only).
@@ -51,3 +53,7 @@ func verifErrInfo(err error) int
 func verifAliases(a, b any) bool
 func verifUF(name string, n int, key []byte, a, b, c uint64) []byte
 func verifAssertBytesEq(a, b []byte, name string)
+func verifPrefer(c bool)
+func verifTime(name string) time.Time
+func verifTimeIn(name string, loc int) time.Time
+func verifTimeAt(name string, loc int, sec int64) time.Time
